@@ -164,6 +164,16 @@ extern "C" void verif_harness() {
     if (x == -INF && y == -INF) SYM_ASSERT(ls == -INF, "pairwise log-sum of two log-zeros is not log-zero");
     if (x < INF && y < INF) SYM_ASSERT(ls < INF, "pairwise log-sum is infinite although no term is");
     break; }
+  case 11: { // FP mode (z3 Float64, exp/log/log1p as IEEE special-value models): the pairwise log-sum stays finite where the naive formula overflows or underflows.
+    // Both terms range over every non-NaN double of magnitude <= 1e300 and over +-inf.
+    const double INF = numeric_limits<double>::infinity();
+    double x = symd("x"), y = symd("y"); SYM_ASSUME(x == x && y == y); SYM_ASSUME((x <= 1e300 || x == INF) && (y <= 1e300 || y == INF)); SYM_ASSUME((x >= -1e300 || x == -INF) && (y >= -1e300 || y == -INF));
+    double ls = NumTools::logsum(x, y);
+    SYM_ASSERT(ls == ls, "pairwise log-sum of non-NaN values is NaN (IEEE)"); SYM_ASSERT(ls >= x && ls >= y, "pairwise log-sum is below one of its terms (IEEE)");
+    if (x < INF && y < INF) SYM_ASSERT(ls < INF, "pairwise log-sum overflows although no term is infinite (IEEE)");
+    if (x == -INF && y == -INF) SYM_ASSERT(ls == -INF, "pairwise log-sum of two log-zeros is not log-zero (IEEE)");
+    if (x > -INF || y > -INF) SYM_ASSERT(ls > -INF, "pairwise log-sum underflows to log-zero although a term is not (IEEE)");
+    break; }
   case 10: { // weighted mean, covariance, variance, standard deviation, correlation: every combination of the unbiased / normalise flags
     int n = len("n", 2); V a = anyV("a", n), b = anyV("b", n), w(n); double S = 0; for (int i = 0; i < n; i++) { w[i] = sympos("w" + to_string(i)); S += w[i]; }
     int unb = __sym_choose("unbiased", 0, 1), nrm = __sym_choose("normalize", 0, 1);
